@@ -15,7 +15,7 @@ CORRESPONDS = ('Model/Diag.lean (evalTasks, evalTests, evalByLabels, bool/oracle
 TRUSTED = ['harness/props/c18.py (generator, stub Test/TestResult classes, recount oracle)',
            'vjdriver (compiled Model/Diag.lean)']
 ASSUMPTIONS = ['results are TestResult objects (NOT_A_TEST entries are outside the quantifier)',
-               "label values are strings; '_test_name' and '_result' are not used as labels (documented)",
+               "label values are strings",
                'an empty observation is not constrained (DESIGN.md, C18 interpretation)']
 
 LABELS = ['meal', 'day', 'who', 'x']
@@ -38,6 +38,11 @@ def gen(rng, tier, run):
             for _ in range(rng.choice([0, 1, 1, 1, 2, 3, 5])):
                 tid += 1
                 labels = [[lab, rng.randrange(0, rng.choice([1, 2, len(VALUES)]))] for lab in labs if rng.random() < 0.8]
+                # the two reserved keys used as labels all the same (the code warns and replaces them)
+                if rng.random() < 0.08:
+                    labels.append(['_result', rng.randrange(len(VALUES))])
+                if rng.random() < 0.05:
+                    labels.append(['_test_name', rng.randrange(len(VALUES))])
                 rng.shuffle(labels)
                 results.append({'verdict': all_ok or rng.random() < 0.6,
                                 'name': rng.randrange(0, 6) if rng.random() < 0.3 else 100 + tid,
@@ -125,15 +130,21 @@ def run_impl(case, run):
     out = {}
     try:
         task_results, fps = build_task_results(case)
-        res = stats.TestStatsTasks(name='s', task_results=task_results).evaluate()
-        out['tasks'] = dump_classify(res.classify, fps)
-        out['tasksBool'] = bool(res)
-        res = stats.TestStatsTests(name='s', task_results=task_results).evaluate()
-        out['tests'] = dump_classify(res.classify, fps)
-        out['testsBool'] = bool(res)
-        if case['byLabels'] is None:
-            out['byLabels'] = None
-        else:
+
+        def tasks():
+            res = stats.TestStatsTasks(name='s', task_results=task_results).evaluate()
+            out['tasks'] = dump_classify(res.classify, fps)
+            out['tasksBool'] = bool(res)
+
+        def tests():
+            res = stats.TestStatsTests(name='s', task_results=task_results).evaluate()
+            out['tests'] = dump_classify(res.classify, fps)
+            out['testsBool'] = bool(res)
+
+        def bylabels():
+            if case['byLabels'] is None:
+                out['byLabels'] = None
+                return
             try:
                 res = stats.TestStatsTestsByLabels(name='s', task_results=task_results,
                                                    by_labels=tuple(case['byLabels'])).evaluate()
@@ -144,6 +155,12 @@ def run_impl(case, run):
                     'oracles': [bool(x) for x in res.oracles()]}
             except stats.TestStatsTestsByLabelsException:
                 out['byLabels'] = 'exception'
+        # the three summaries are computed from the same environment sections, in an order that varies with the case
+        steps = [tasks, tests, bylabels]
+        k = (len(case['tasks']) + len(case['byLabels'] or [])) % 6
+        order = [[0, 1, 2], [2, 1, 0], [1, 2, 0], [2, 0, 1], [0, 2, 1], [1, 0, 2]][k]
+        for i in order:
+            steps[i]()
     except Exception as exc:  # pylint: disable=broad-except
         out['error'] = f'{type(exc).__name__}: {exc}'[:300]
     return out
